@@ -224,6 +224,12 @@ REUSE_CORPUS = [
 ]
 
 FRONT_CORPUS = [
+    # label names that only START like a register are labels (seeded change C03_20: `.match` instead of `fullmatch`)
+    "M1_done:\nset R0 1\njmp M1_done\n",
+    "set R2 0\nR2D2:\nadd R2 R2 1\nblt R2 3 R2D2\nbez R2 C3PO\nQ0x:\nC3PO:\njmp Q0x\n",
+    "R16x:\nR1_:\nbnz R1 R1_\nbnz R1 R16x\n",
+    "# DEFINE R2D2 R5\n# DEFINE R2 R6\nset $R2D2 1\nset $R2 2\n",
+
     "# DEFINE n R1\n# DEFINE N R2\nset $N 1\nset $n 2\n",          # macro keys differing only in case
     "# DEFINE ms @0\n# DEFINE MS @1\n# DEFINE ms1 @2\narray(2) $MS\narray(3) $ms\narray(4) $ms1\n",
     "# DEFINE set add\n# DEFINE R1 R7\n$set $R1 $R1 1\n",            # keys equal to a mnemonic / a register
@@ -441,6 +447,27 @@ def run(ctx):
         if got != {"ok": want}:
             res.failures.append({"what": "a macro use is replaced by a macro whose key is not exactly its name",
                                  "kf": None, "input": {"text": txt, "parsed": got, "expected": want}})
+    # text programs whose labels start like a register: the text must assemble like the IR it denotes
+    for prog in [
+        [{"l": "M1_done"}, {"m": "set", "a": [], "o": [{"r": [0, 0]}, {"i": 1}]}, {"m": "jmp", "a": [], "o": [{"lab": "M1_done"}]}],
+        [{"m": "set", "a": [], "o": [{"r": [0, 2]}, {"i": 0}]}, {"l": "R2D2"},
+         {"m": "add", "a": [], "o": [{"r": [0, 2]}, {"r": [0, 2]}, {"i": 1}]},
+         {"m": "blt", "a": [], "o": [{"r": [0, 2]}, {"i": 3}, {"lab": "R2D2"}]},
+         {"m": "bez", "a": [], "o": [{"r": [0, 2]}, {"lab": "C3PO"}]}, {"l": "Q0x"}, {"l": "C3PO"}],
+        [{"l": "R16x"}, {"l": "R1_"}, {"m": "bnz", "a": [], "o": [{"r": [0, 1]}, {"lab": "R1_"}]},
+         {"m": "bnz", "a": [], "o": [{"r": [0, 1]}, {"lab": "R16x"}]}],
+    ]:
+        res.evaluations += 1
+        txt = H.render_text(prog, H.random.Random(0), [])
+        got = H.real_parse_proto(txt)
+        want = [c if "l" in c else {"m": c["m"], "a": c["a"], "o": c["o"]} for c in prog]
+        if got != {"ok": want}:
+            res.failures.append({"what": "parse_text_protosubroutine(render(P)) != P", "kf": None,
+                                 "input": {"text": txt, "program": prog, "parsed": got}})
+        elif H.real_assemble(prog)[0] != H.real_parse_text(txt):
+            res.failures.append({"what": "the assembler refuses (or changes) a legal text program", "kf": None,
+                                 "input": {"text": txt, "assembled_directly": H.real_assemble(prog)[0],
+                                           "assembled_from_text": H.real_parse_text(txt)}})
     res.evaluations += 1
     if H.real_parse_proto(f4_text) != {"ok": f4_want}:
         res.failures.append({"what": "a macro use is replaced by a macro whose key is a prefix of its name", "kf": None,
